@@ -29,6 +29,9 @@ def main():
         meta = json.load(open(os.path.join(d, "meta.json")))
         rec = (meta.get("verification") or {}).get("checks") or {}
         checks = [c for c, v in rec.items() if v.get("detected")] or [sid.split("-")[0]]
+        if os.environ.get("RECHECK_CHECKS"):  # second pass of a seeding round: the named checks, recorded as verification results
+            checks = [c if c != "OWN" else sid.split("-")[0] for c in os.environ["RECHECK_CHECKS"].split(",")]
+            checks = list(dict.fromkeys(checks))
         scratch = f"/tmp/recheck-{sid}-{os.getpid()}"
         used = None
         for base in (None, meta.get("verified_against_repo_commit"), "021ef1c"):
@@ -51,11 +54,16 @@ def main():
             os.makedirs(evdir, exist_ok=True)
             for c in checks:
                 t = time.time()
-                env = dict(os.environ, VERIF_REPO=scratch, VERIF_EVIDENCE_DIR=evdir, VERIF_REPLAY_DIR=os.path.join(scratch, "replays"))
+                env = dict(os.environ, VERIF_REPO=scratch, VERIF_EVIDENCE_DIR=evdir, VERIF_REPLAY_DIR=os.path.join(scratch, "replays"),
+                           VERIF_STOP_ON_VIOLATION="1")
                 rc, out = sh([PY, "-m", "mc", c, "--tier", "quick"], cwd=VERIF, env=env)
                 res["checks"][c] = {"rc": rc, "detected": rc == 1, "wall_s": round(time.time() - t, 1)}
             print(f"{sid}: base={used} " + " ".join(f"{c}={'DETECTED' if v['detected'] else 'MISSED rc=' + str(v['rc'])}" for c, v in res["checks"].items()), flush=True)
-        meta["recheck"] = res
+        if os.environ.get("RECHECK_CHECKS"):
+            for c, v in res["checks"].items():
+                meta.setdefault("verification", {}).setdefault("checks", {})[c] = dict(v, violations=["second pass: tools/recheck_seeded.py with RECHECK_CHECKS, early stop"])
+        else:
+            meta["recheck"] = res
         json.dump(meta, open(os.path.join(d, "meta.json"), "w"), indent=1)
         shutil.rmtree(scratch, ignore_errors=True)
 
